@@ -164,6 +164,11 @@ var c16sZeroMakers = []func(*c16sCustom) context.Context{
 
 var c16sZeroNext atomic.Int32
 
+type c16sUncmp struct {
+	context.Context
+	tags []string
+}
+
 type c16sInput struct {
 	kind      string
 	ctx       context.Context
@@ -177,8 +182,17 @@ func TestC16Static(t *testing.T) {
 		n := rapid.IntRange(0, 5).Draw(t, "inputs")
 		var in []*c16sInput
 		var trace []string
+		defer func() {
+			// a combinator that panics on contexts it is documented to accept is a verdict, not a crash of the harness
+			if r := recover(); r != nil {
+				if !strings.Contains(fmt.Sprintf("%T", r), "rapid.") {
+					vkit.Announce("C16/panic", "a context combinator panicked: %v\ncase: %v", r, trace)
+				}
+				panic(r)
+			}
+		}()
 		for i := 0; i < n; i++ {
-			x := &c16sInput{kind: rapid.SampledFrom([]string{"std", "std", "std", "custom", "never", "detached", "zero"}).Draw(t, "kind")}
+			x := &c16sInput{kind: rapid.SampledFrom([]string{"std", "std", "std", "custom", "never", "detached", "zero", "uncomparable", "uncomparable"}).Draw(t, "kind")}
 			zi := -1
 			if x.kind == "zero" {
 				if zi = int(c16sZeroNext.Add(1)) - 1; zi >= len(c16sZeroMakers) {
@@ -201,6 +215,10 @@ func TestC16Static(t *testing.T) {
 				inner, cancel := context.WithCancel(context.Background())
 				cancel()
 				x.ctx = c16sDetached{context.WithValue(inner, c16sKey(i), i*10)}
+			case "uncomparable":
+				// a value-typed context with a slice field: two of them must never be compared with ==
+				c, cancel := context.WithCancel(context.Background())
+				x.ctx, x.cancel = c16sUncmp{context.WithValue(c, c16sKey(i), i*10), []string{"tag"}}, cancel
 			}
 			if x.cancel != nil && rapid.IntRange(0, 3).Draw(t, "pre") == 0 {
 				x.cancel()
